@@ -1,8 +1,8 @@
 package props
 
 import (
-	"time"
 	"fmt"
+	"time"
 
 	"verifharness/internal/core"
 	"verifharness/internal/mt"
@@ -349,6 +349,10 @@ func (pg *ProgGen) stmt(depth int) []mt.Stmt {
 		if r.P(1, 2) {
 			f.HasElse = true
 			f.Else = []mt.Stmt{mt.T("(empty)")}
+			if pg.inLoop > 0 && r.P(1, 2) {
+				// the else branch of a nested loop still sees the enclosing loop's counters
+				f.Else = append(append([]mt.Stmt{mt.T("(empty ")}, pg.loopMeta()...), mt.T(")"))
+			}
 		}
 		out := []mt.Stmt{f}
 		if len(inner) > 0 && r.P(2, 3) {
